@@ -6,6 +6,7 @@ package main
 import (
 	"fmt"
 	"go/ast"
+	"go/constant"
 	"go/token"
 	"go/types"
 	"os"
@@ -689,10 +690,31 @@ func parserCore(c *Ctx) []*ast.FuncDecl {
 	for _, e := range []string{"ParseList", "ParseObject", "ParseFile"} {
 		visit(e)
 	}
+	// methods of private helper types (a scanner, a cursor) belong to the parser like its plain helpers; methods of the containers and
+	// of the scalar wrappers do not
+	helperMethod := func(fd *ast.FuncDecl) bool {
+		if fd.Recv == nil || len(fd.Recv.List) != 1 {
+			return false
+		}
+		t := c.typeOf(fd.Recv.List[0].Type)
+		if p, ok := t.(*types.Pointer); ok {
+			t = p.Elem()
+		}
+		nt, ok := t.(*types.Named)
+		if !ok || nt.Obj().Pkg() != c.Types || nt.Obj().Exported() || c.Inv().ContOf(nt) != nil {
+			return false
+		}
+		for _, w := range c.Inv().Wrappers {
+			if w.Obj() == nt.Obj() {
+				return false
+			}
+		}
+		return true
+	}
 	for _, fd := range parseClosure(c) {
-		if fd.Recv == nil {
+		if fd.Recv == nil || helperMethod(fd) {
 			n := fd.Name.Name
-			if n == "parseVal" || strings.HasPrefix(n, "New") || strings.HasPrefix(n, "new") || !reach[declName(fd)] {
+			if n == "parseVal" || (fd.Recv == nil && (strings.HasPrefix(n, "New") || strings.HasPrefix(n, "new"))) || !reach[declName(fd)] {
 				continue
 			}
 			out = append(out, fd)
@@ -1771,6 +1793,37 @@ func c20Formats(c *Ctx) {
 	c.R.Floor("C20.R4", n, 3)
 }
 
+// intValued: the term evidently denotes an integer (a variable, a dereferenced counter, a constant, a length, a call returning an
+// integer, a conversion to an integer type, arithmetic on those).
+func intValued(t Term) bool {
+	switch x := t.(type) {
+	case TDeref:
+		return true
+	case TVar:
+		return isIntType(x.Obj.Type())
+	case TLoop:
+		return isIntType(x.Obj.Type())
+	case TConst:
+		return x.Val.Kind() == constant.Int
+	case TConv:
+		return isIntType(x.To)
+	case TBuiltin:
+		return x.Name == "len" || x.Name == "cap"
+	case TCall:
+		if x.Fun != nil {
+			if sig, ok := x.Fun.Type().(*types.Signature); ok && sig.Results().Len() == 1 {
+				return isIntType(sig.Results().At(0).Type())
+			}
+		}
+	case TBin:
+		switch x.Op {
+		case token.ADD, token.SUB, token.MUL, token.QUO, token.REM:
+			return intValued(x.X) && intValued(x.Y)
+		}
+	}
+	return false
+}
+
 // collectInts gathers the integer-typed leaves that are formatted into a message: arguments of Errorf/Sprintf and of Itoa/FormatInt.
 // numericArgs: the arguments of a formatting call that can print as numbers: with a constant format, those under the character
 // verbs %c, %q and %U are left out (an integer there prints as a character, not as a number).
@@ -1830,6 +1883,14 @@ func collectInts(t Term, out *[]Term) {
 		}
 		collectInts(x.X, out)
 	case TBin:
+		// arithmetic on integers (`line - strings.Count(str, "\n")`, `line + 1`) is a number of its own, not the operands: it is handed
+		// on whole (and is then not the line counter); `+` on text is concatenation and is looked into
+		if x.Op != token.ADD || intValued(x.X) || intValued(x.Y) {
+			if intValued(x.X) || intValued(x.Y) {
+				*out = append(*out, x)
+				return
+			}
+		}
 		collectInts(x.X, out)
 		collectInts(x.Y, out)
 	case TCall:
